@@ -1115,7 +1115,9 @@ func runC15Archive(rec *kit.Recorder, c c15Case) error {
 }
 
 func TestVerif_C15(t *testing.T) {
-	log.SetOutput(io.Discard)
+	// zoekt's log output stays on stderr (the run's log.txt): the directory walker ends the
+	// process with log.Fatal on a walk error and the message is the only trace of that.
+	log.SetFlags(log.Lmicroseconds)
 	rec := kit.Open(t, "C15",
 		"rapid-generated inputs of two kinds. Directory trees (60%): up to 40 entries, depth <= 3: regular files (empty, 1-2 bytes, text, invalid UTF-8, NUL-carrying, around the size limit, trigram-rich, odd names incl. glob characters, quotes, newlines), directories, directories named like the -ignore_dirs list (default .git,.hg,.svn, a custom list, or none) with content, files and symlinks carrying such names, symlinks to files / directories / outside the root (relative and absolute) / dangling / self / short and long targets, FIFOs, a .sourcegraph/ignore file (prefix, *.ext, **/*.ext, **.ext, dir/*.ext, exact and ?-patterns, comments, padding, leading slash) or a symlinked / directory-shaped one; indexed by indexArg. Archives (40%): tar / tar.gz / zip with regular members, directory entries, symlinks, hard links, FIFOs, pax global header, optional common top directory and ./ prefix, duplicate names, strip count 0-2, plus zero-length files, archives without members or with directories only, and archives cut at a drawn offset; indexed by archive.Index. Options: SizeMax 64/200/default, TrigramMax 20/default, ShardMax 1500/default, LargeFiles **/*.keep. A case = one input; non-trivial = at least one symlink, ignored entry, filtered non-regular member or stripped-away member; distinct by hash of the case",
 		"documents are read back from every shard of the output directory with query.Const{true} and Whole=true and compared as a multiset of (name, content)",
